@@ -1,4 +1,217 @@
+/-
+C02 — single‑statement column lineage is exact.
+
+Theorems about the column layer of the model: the naming rule of target columns (`Walk.colSpecOf`, model of
+`SqlFluffColumn.of`), scope resolution of source references (`Holder.toSourceColumns` over `Holder.aliasMapping`, models of
+`Column.to_source_columns` and `get_alias_mapping_from_table_group`) and the positional rule of
+`end_of_query_cleanup` (`Holder.cleanupItem`).  They hold for EVERY alias map / graph / expression.
+
+The end‑to‑end statement `pairs_exact : Frag02 s → pairs (run [s]) = Spec.colflow s` is NOT proved; it is kept below as a
+comment.  What ties the composition of these layers (and the path enumeration of C06) to the code is the SQL‑level
+correspondence of `harness/c02.py`.
+-/
 import SqlLineage.Model.Runner
+
 namespace SqlLineage.Props.C02
-theorem placeholder : True := trivial
+open SqlLineage Ast Holder Walk
+
+/-! ### 1. the naming rule: explicit alias, else the column's own name, else the expression text -/
+
+/-- an aliased item is named by its alias (normalised), whatever the expression -/
+theorem target_named_by_alias (env : Env) (e : Expr) (a : String) (k : Bool) :
+    (colSpecOf env (.mk e (some a) k)).raw = Ident.escapeS a := by
+  simp [colSpecOf, ColSpec.of]
+
+/-- an un‑aliased plain column reference is named by the column's own name (qualifiers dropped) -/
+theorem target_named_by_own_name (env : Env) (qs : List String) (c : String) (k : Bool) :
+    (colSpecOf env (.mk (.col qs c) none k)).raw = Ident.escapeS c := by
+  simp [colSpecOf, refs, ColSpec.of]
+
+/-- an un‑aliased wildcard keeps the name `*` -/
+theorem target_star (env : Env) (qs : List String) (k : Bool) :
+    (colSpecOf env (.mk (.star qs) none k)).raw = Ident.escapeS "*" := by
+  simp [colSpecOf, refs, ColSpec.of]
+
+/-- the display name of any other un‑aliased expression is its text — and nothing else of the item depends on the text:
+    the source references are `refs e` in every case -/
+theorem expr_display_name_only (env : Env) (e : Expr) (alias : Option String) (k : Bool) :
+    (colSpecOf env (.mk e alias k)).srcs =
+      (refs e).map (fun p => (Ident.escapeS p.1, p.2.map Ident.escapeS)) := by
+  cases alias with
+  | some a => simp [colSpecOf, ColSpec.of]
+  | none =>
+    by_cases h : (refs e).isEmpty = true
+    · have : refs e = [] := List.isEmpty_iff.mp h
+      simp [colSpecOf, ColSpec.of, this]
+    · simp only [colSpecOf, h, Bool.not_false, if_true, Bool.false_eq_true, if_false, Bool.not_eq_true]
+      cases e <;> simp [ColSpec.of]
+
+/-- a qualified reference `q.c` keeps exactly the LAST qualifier part as its qualifier -/
+theorem refs_col (qs : List String) (c : String) : refs (.col qs c) = [(c, qs.getLast?)] := by simp [refs]
+
+/-- literals contribute no source column -/
+theorem refs_lit (t : String) : refs (.lit t) = [] := by simp [refs]
+
+/-! ### 2. scope resolution -/
+
+/-- a qualified reference resolves to the relation that answers to the qualifier in the alias map -/
+theorem qualified_resolution (imp : String) (m : AliasMap) (name c q : String) (v : DS × String) (k : Nat)
+    (h : amGet m q = some v) :
+    toSourceColumns imp m ⟨name, [(c, some q)], false⟩ k = [Column.mk1 c (some v)] := by
+  simp [toSourceColumns, h, pushCol]
+
+/-- an unknown qualifier is NOT guessed from the scope: it becomes a table of that name in the default schema -/
+theorem unknown_qualifier_is_a_table (imp : String) (m : AliasMap) (name c q : String) (k : Nat)
+    (h : amGet m q = none) :
+    toSourceColumns imp m ⟨name, [(c, some q)], false⟩ k =
+      [Column.mk1 c (some (.table imp (Ident.escapeS q), imp ++ "." ++ Ident.escapeS q))] := by
+  simp [toSourceColumns, h, pushCol]
+
+/-- an unqualified reference in a scope with exactly one relation resolves to it -/
+theorem unqualified_single (imp : String) (m : AliasMap) (name c : String) (v : DS × String)
+    (hc : (c == "*") = false) (h : amValues m = [v]) :
+    toSourceColumns imp m ⟨name, [(c, none)], false⟩ 0 = [Column.mk1 c (some v)] := by
+  simp [toSourceColumns, hc, h, permK, pushCol, Column.mk1, Column.addParent, insertParent]
+
+/-- candidates of an unqualified reference: every relation of the scope, nothing else -/
+private theorem mem_insertParent (p x : DS × String) (l : List (DS × String)) :
+    x ∈ insertParent p l → x = p ∨ x ∈ l := by
+  induction l with
+  | nil => simp [insertParent]
+  | cons q r ih =>
+    simp only [insertParent]
+    split
+    · exact Or.inr
+    · split
+      · intro h
+        simp only [List.mem_cons, List.mem_filter] at h
+        rcases h with h | h | ⟨h, _⟩
+        · exact Or.inl h
+        · exact Or.inr (by simp [h])
+        · exact Or.inr (by simp [h])
+      · intro h
+        simp only [List.mem_cons] at h
+        rcases h with h | h
+        · exact Or.inr (by simp [h])
+        · rcases ih h with h' | h'
+          · exact Or.inl h'
+          · exact Or.inr (by simp [h'])
+
+private theorem mem_foldl_addParent (vs : List (DS × String)) (c : Column) (x : DS × String) :
+    x ∈ (vs.foldl (fun col v => col.addParent v) c).parents → x ∈ c.parents ∨ x ∈ vs := by
+  induction vs generalizing c with
+  | nil => exact Or.inl
+  | cons v r ih =>
+    intro h
+    rcases ih (c.addParent v) h with h' | h'
+    · rcases mem_insertParent v x c.parents h' with h'' | h''
+      · exact Or.inr (by simp [h''])
+      · exact Or.inl h''
+    · exact Or.inr (by simp [h'])
+
+private theorem mem_permK {α : Type} (k : Nat) (l : List α) (y : α) : y ∈ permK k l → y ∈ l := by
+  induction l generalizing k with
+  | nil => simp [permK]
+  | cons z r ih =>
+    simp only [permK, List.mem_append, List.mem_cons, List.mem_nil_iff, or_false]
+    rintro ((h | h) | h)
+    · exact Or.inr (ih _ (List.mem_of_mem_take h))
+    · exact Or.inl h
+    · exact Or.inr (ih _ (List.mem_of_mem_drop h))
+
+/-- **never a guess**: whatever the scope and whatever the iteration order `k` of the relation set, an unqualified,
+    non‑star reference yields ONE column whose owner candidates are relations of the scope (`amValues m`) and nothing
+    else — with several candidates it is reported as unresolved (`Column.parent? = none`), never attributed to one -/
+theorem unqualified_candidates_are_scope (imp : String) (m : AliasMap) (name c : String) (k : Nat)
+    (hc : (c == "*") = false) :
+    toSourceColumns imp m ⟨name, [(c, none)], false⟩ k =
+      [(permK k (amValues m)).foldl (fun col v => col.addParent v) (Column.mk1 c none)] ∧
+    ∀ x ∈ ((permK k (amValues m)).foldl (fun col v => col.addParent v) (Column.mk1 c none)).parents,
+      x ∈ amValues m := by
+  have hne : c ≠ "*" := by simpa using hc
+  refine ⟨by simp [toSourceColumns, hne, pushCol], ?_⟩
+  intro x hx
+  rcases mem_foldl_addParent _ _ x hx with h | h
+  · simp [Column.mk1] at h
+  · exact mem_permK k _ x h
+
+/-! ### 3. the alias map: which names a relation answers to -/
+
+/-- an un‑aliased table of the group answers to its bare name and to its qualified name -/
+theorem table_answers_to_names (g : LGraph) (grp : List DObj) (s n : String) (al : Option String)
+    (hmem : (⟨.table s n, al⟩ : DObj) ∈ grp)
+    (huniq : ∀ o ∈ grp, ∀ s' n', o.d = .table s' n' → s' ++ "." ++ n' = s ++ "." ++ n → o.d = .table s n) :
+    (amGet (aliasMapping g grp) (s ++ "." ++ n)).map (·.1) = some (.table s n) := by
+  -- the qualified map is the LAST operand of the union, so the last matching entry of it decides
+  simp only [amGet, aliasMapping, List.reverse_append, List.find?_append]
+  have hq : ∃ x, ((grp.filter (fun o => o.d.isTable)).map (fun o => (o.printed, (o.d, o.printed)))).reverse.find?
+      (fun p => p.1 == s ++ "." ++ n) = some x ∧ x.2.1 = .table s n := by
+    have hin : ((⟨.table s n, al⟩ : DObj).printed, ((⟨.table s n, al⟩ : DObj).d, (⟨.table s n, al⟩ : DObj).printed)) ∈
+        ((grp.filter (fun o => o.d.isTable)).map (fun o => (o.printed, (o.d, o.printed)))).reverse := by
+      simp only [List.mem_reverse, List.mem_map, List.mem_filter]
+      exact ⟨_, ⟨hmem, by simp [DS.isTable]⟩, rfl⟩
+    cases hf : ((grp.filter (fun o => o.d.isTable)).map (fun o => (o.printed, (o.d, o.printed)))).reverse.find?
+        (fun p => p.1 == s ++ "." ++ n) with
+    | none =>
+      have := List.find?_eq_none.mp hf _ hin
+      simp [DObj.printed] at this
+    | some x =>
+      refine ⟨x, rfl, ?_⟩
+      have hx := List.mem_of_find?_eq_some hf
+      have hp := List.find?_some hf
+      simp only [List.mem_reverse, List.mem_map, List.mem_filter] at hx
+      obtain ⟨o, ⟨ho, hot⟩, rfl⟩ := hx
+      simp only [beq_iff_eq] at hp
+      cases hod : o.d with
+      | table s' n' =>
+        have := huniq o ho s' n' hod (by simpa [DObj.printed, hod] using hp)
+        simpa [hod] using this
+      | path u => simp [hod, DS.isTable] at hot
+      | subq r => simp [hod, DS.isTable] at hot
+  obtain ⟨x, hx, hx1⟩ := hq
+  simp [hx, hx1]
+
+/-- D7 (recorded finding): the union `alias_map | unqualified_map | qualified_map` lets a table's BARE NAME override
+    another relation's alias — `from sch1.foo tab join sch2.tab` makes `tab` denote `sch2.tab`. -/
+theorem dev_D7 :
+    let foo : DObj := ⟨.table "sch1" "foo", some "tab"⟩
+    let tab : DObj := ⟨.table "sch2" "tab", some "tab"⟩
+    let g := addReadO (addReadO Graph.empty foo) tab
+    (amGet (aliasMapping g [foo, tab]) "tab").map (·.2) = some "sch2.tab" := by decide
+
+/-! ### 4. positional wiring of set operations and column lists -/
+
+/-- `end_of_query_cleanup` wires item `idx` of a group to `write_columns[idx]` exactly when the number of write columns
+    equals the size of the group (explicit column list, or the columns the first branch of a set operation created),
+    and to its own name otherwise; an item without source columns (a literal) adds nothing at all. -/
+theorem item_without_sources_adds_nothing (imp : String) (tp : DS × String) (n : Nat) (grp : List DObj) (g : LGraph)
+    (c : ColSpec) (idx k : Nat) (h : c.srcs = []) :
+    cleanupItem imp tp n grp g (c, idx) k = .ok g := by
+  simp [cleanupItem, toSourceColumns, h]
+
+/-- D6 (recorded finding): because a source‑less item of the first branch creates no write column, a later branch no longer
+    finds as many write columns as it has items and falls back to its own names — the literal shifts the wiring. -/
+theorem dev_D6_mechanism (imp : String) (tp : DS × String) (grp : List DObj) (g : LGraph) (c : ColSpec) (idx k : Nat)
+    (hs : (toSourceColumns imp (aliasMapping g grp) c k).isEmpty = false)
+    (hlen : ((writeColumns g).length == 2) = false) :
+    cleanupItem imp tp 2 grp g (c, idx) k =
+      (toSourceColumns imp (aliasMapping g grp) c k).foldlM
+        (fun g s => addColumnLineage g s (Column.mk1 c.raw (some tp))) g := by
+  simp [cleanupItem, hs, hlen]
+
+/-! ### non‑vacuity -/
+
+example : amGet (aliasMapping (addReadO Graph.empty ⟨.table "s" "t", some "x"⟩) [⟨.table "s" "t", some "x"⟩]) "x"
+    = some (.table "s" "t", "s.t") := by decide
+
+example : (toSourceColumns "<default>" [("x", (.table "s" "t", "s.t")), ("y", (.table "s" "u", "s.u"))]
+    ⟨"c", [("a", none)], false⟩ 0).map (fun c => (c.raw, c.parents.map (·.2))) = [("a", ["s.t", "s.u"])] := by decide
+
+/-
+  NOT PROVED (full statement, DESIGN §5 C02):
+    theorem pairs_exact (s : Stmt) (h : Frag02 s) : pairs (Runner.eval c md [s]) = Spec.colflow env s
+  where `Spec.colflow` is the denotational dataflow of Appendix B.  Missing: the specification `Spec.colflow` itself in Lean,
+  the composition of the lemmas above through `cleanupGroup` / `expandWildcard`, and the path enumeration (C06).
+-/
+
 end SqlLineage.Props.C02
